@@ -236,7 +236,8 @@ func hasZeroWidthItems(s avro.Schema) bool {
 	case "array":
 		return s.Object != nil && (zeroWidth(s.Object.Items) || hasZeroWidthItems(s.Object.Items))
 	case "map":
-		return false // a map entry always has a key
+		// a map entry always has a key, but its values may contain such collections
+		return s.Object != nil && hasZeroWidthItems(s.Object.Values)
 	case "record":
 		if s.Object != nil {
 			for _, f := range s.Object.Fields {
@@ -251,9 +252,6 @@ func hasZeroWidthItems(s avro.Schema) bool {
 				return true
 			}
 		}
-	}
-	if s.Type == "map" && s.Object != nil {
-		return hasZeroWidthItems(s.Object.Values)
 	}
 	return false
 }
@@ -314,7 +312,11 @@ func runC06(r *Run) {
 			continue
 		}
 		zw := hasZeroWidthItems(s)
-		ms := append(structuralMutants(r, s, d, ch, r.N(14, 40)), mutants(r, enc, per)...)
+		nstruct := r.N(14, 40)
+		if zw {
+			nstruct = 2 // each hit on a zero-width collection re-establishes the recorded finding at the price of a deadline
+		}
+		ms := append(structuralMutants(r, s, d, ch, nstruct), mutants(r, enc, per)...)
 		if zw && len(ms) > 12 {
 			// zero-width items are a recorded finding (count-driven loops): a handful of
 			// mutants is enough to show it, every one that hits it costs a full deadline
